@@ -35,7 +35,7 @@ var smallKeys = []string{"a", "b", "ab", "", "B", "0", "10", "9"}
 var oddKeys = []string{"", " ", "  x", "é", "\xff\xfe", "a,b", "a\"b", "long-" + strings.Repeat("k", 40), "x\ny", "\x1b[31mred", "-1", "1.5"}
 var incs = []string{"1", "2", "0", "-1", "-7", "+5", "9223372036854775807", "-9223372036854775808", "4611686018427387904", "1.5", "abc", "", " 3", "0x10", "1e3", "99999999999999999999",
 	// one past either end of int64 (19 digits, like the limits themselves), 2^64: not an int64, a parse error
-	"9223372036854775808", "-9223372036854775809", "9999999999999999999", "18446744073709551616", "-0", "007"}
+	"9223372036854775808", "-9223372036854775809", "9999999999999999999", "18446744073709551616", "-0", "007", "-", "+", "1_0"}
 
 func genKey(t *rapid.T, label string) string {
 	switch rapid.IntRange(0, 9).Draw(t, label+"class") {
